@@ -228,6 +228,12 @@ class Play:
         ctor_provs = {p for p in all_provs if not p.startswith("late")}  # late* providers are attached by add_listener only
         # callbacks that are attributes of one provider object only: the first instance has them, a sibling may not
         self._instance_cbs = True if name == "main" else bool(self.case.get("sib_instance_cbs", False))
+        extra_ctor = ()
+        if name != "main" and self.case.get("sib_late_as_ctor"):
+            # the sibling gets the "late" listener objects already through its constructor: what kind of engine an instance
+            # needs is decided per instance, not per class
+            extra_ctor = tuple(p for p in all_provs if p.startswith("late"))
+            ctor_provs |= set(extra_ctor)
         is_async = is_async_spec(self.spec, ctor_provs)
         it = self.new_interp(ctor_provs, is_async, state0)
         ctx = Ctx(name, None, Hh, it, None)
@@ -247,7 +253,7 @@ class Play:
             mk["model"] = model
             mk["model_given"] = True
         try:
-            sm, _ = r.make(rtc=self.rtc, allow=self.allow, Hh=Hh, instance_cbs=self._instance_cbs, **mk, **self.ctor_kwargs())
+            sm, _ = r.make(rtc=self.rtc, allow=self.allow, Hh=Hh, instance_cbs=self._instance_cbs, extra_ctor=extra_ctor, **mk, **self.ctor_kwargs())
         except (Boom, TransitionNotAllowed) as e:
             # a failure during initial activation escapes from the constructor: there is no machine to go on with.
             Hh.log[:] = [t for t in Hh.log if t[0] != "G"]
